@@ -61,6 +61,9 @@ def main(argv):
             doc = json.load(f)
         check = load_check(doc["property"])
         return runner.replay(check, argv[2])
+    if cmd == "mutants":
+        from tools import mutants
+        return mutants.main(argv[2:])
     if cmd == "digests":
         import selftest
         return selftest.cmd_digests(argv[2], int(argv[3]))
